@@ -207,4 +207,24 @@ def check_grading_end(prog, report):
                  'from log_scheme_m.points, both through the element\'s own '
                  'affine map a + (b-a)*p and its own piece',
                  construct='_init_elems: tabulated points')
-    report.floor('R-grading-end', 11)
+    # ... and does so for every element it is given, every time
+    loops = [n for n in fi2.node.body if isinstance(n, ast.For)]
+    okall = len(loops) == 1 and not any(
+        isinstance(m, (ast.Continue, ast.Break, ast.Return, ast.Try,
+                       ast.If, ast.While))
+        for s_ in loops[0].body for m in ast.walk(s_)) if loops else False
+    if loops and okall:
+        tgt = text(loops[0].target)
+        okall = all(
+            isinstance(s_, ast.Assign) for s_ in loops[0].body) and sum(
+                1 for s_ in loops[0].body
+                if isinstance(s_.targets[0], ast.Attribute)
+                and text(s_.targets[0].value) == tgt) == 2
+    report.check(okall, 'R-grading-end', '_init_elems tabulates every '
+                 'element', fi2.where(),
+                 'the tables are assigned unconditionally to every element '
+                 'of the list (an element that keeps tables from elsewhere '
+                 '-- a parent, an earlier mesh -- would be evaluated on the '
+                 'wrong nodes)',
+                 construct='_init_elems: unconditional tabulation')
+    report.floor('R-grading-end', 12)
